@@ -32,6 +32,8 @@ THEOREMS = [
     (P, 'EAO.C19.coarse_on_restricted_witness', 'machine-checked witness of known finding F-19d'),
 ]
 THEOREMS = THEOREMS + PR.THEOREMS_C19_PRICES
+from ..comp import dstgrid as DG
+THEOREMS = THEOREMS + DG.THEOREMS_C19_DST
 PARTIAL = ['coarse_partition covers [first cut, last cut), not the window: when the window is not a whole number of coarse steps AND ends inside the reference grid the implementation drops the fine steps after the last cut (known finding F-19b); a window that reaches beyond the reference grid loses nothing (coarse_partition_clipped)']
 COMPONENTS = ['grid (tick + supplied calendar points) vs Timegrid.__init__', 'restrict vs set_restricted_grid', 'coarsen vs the coarse branch', 'values_to_grid / implicit ends / prep_date_dict', 'prices pass-through']
 RULE = ('generated grids (5 zones, units h/d/min/s, tick frequencies + calendar d/MS/W, DST dates), restriction windows from a placement table, coarse multiples and non-multiples, coarse windows reaching beyond the reference grid (before the start, after the end, both; by whole coarse steps, by part of one, entirely outside), interval lists in all container forms incl. malformed; '
@@ -62,9 +64,21 @@ def scenarios(seed, tier):
         yield 'prc%d' % i, {'_stream': 'prices', 'case': c}
     for i in range(n // 4):
         yield 'pr%d' % i, {'_stream': 'prices', 'case': PR.gen_case(random.Random(rnd.getrandbits(48)))}
+    # daily grids in zones with daylight saving against the model with the zone's offset table as input (comp/dstgrid.py)
+    import random as _random
+    _rdg = _random.Random(seed * 104729 + 1920)
+    for i, c in enumerate(DG.corner_cases()):
+        yield 'dgc%d' % i, {'_stream': 'dstgrid', 'case': c}
+    for i in range(120 if tier == 'quick' else 800):
+        yield 'dg%d' % i, {'_stream': 'dstgrid', 'case': DG.gen_case(_random.Random(_rdg.getrandbits(48)))}
 
 
 def run_case(case, drv):
+    if isinstance(case, dict) and case.get('_stream') == 'dstgrid':
+        r = DG.run_case(case['case'], drv)
+        return {'evaluated': 1, 'nontrivial': bool(r.get('nontrivial')), 'features': ['stream:dstgrid'] + list(r.get('features', [])),
+                'disagreements': [d if isinstance(d, dict) else {'component': 'daily DST grid', 'detail': d} for d in r['disagreements']],
+                'violations': r['violations']}
     if isinstance(case, dict) and case.get('_stream') == 'prices':
         r = PR.run_case(case['case'], drv)
         r.pop('exact', None)
